@@ -16,7 +16,7 @@ for id in "$@"; do
 import json,sys,re
 m=json.load(open('$d/meta.json'))
 c=m.get('demo_command','')
-c=re.sub(r'cd /tmp/seed-[A-Za-z0-9]+ *&& *','',c)
+c=re.sub(r'cd /tmp/seed2?-[A-Za-z0-9]+ *&& *','',c)
 c=re.sub(r'CARGO_TARGET_DIR=\S+ *','',c)
 c=re.sub(r'CARGO_NET_OFFLINE=\S+ *','',c)
 print(c)" 2>/dev/null)
